@@ -93,7 +93,7 @@ theorem C01_ok_iff (c : Ctx N) : (Spec.C01 c).ok = true ↔ C01_Holds c := by
 variable [LT N] [DecidableRel (α := N) (· < ·)]
 
 /-- **C01 (readable form).** -/
-theorem C01_hazard_order' (p : Proc N) (prog : List (Instr N)) (tbl : List (Util N)) (stalled : Bool)
+theorem C01_hazard_order_readable (p : Proc N) (prog : List (Instr N)) (tbl : List (Util N)) (stalled : Bool)
     (hwf : wfProc p = true) (hp : ProgOK prog) (h : Diagram p prog tbl stalled) :
     C01_Holds (ctx p prog tbl stalled) := by
   intro i j insI insJ hij hI hJ
@@ -112,6 +112,202 @@ theorem C01_hazard_order' (p : Proc N) (prog : List (Instr N)) (tbl : List (Util
 theorem C01_hazard_order (p : Proc N) (prog : List (Instr N)) (tbl : List (Util N)) (stalled : Bool)
     (hwf : wfProc p = true) (hp : ProgOK prog) (h : Diagram p prog tbl stalled) :
     (Spec.C01 (ctx p prog tbl stalled)).ok = true :=
-  (C01_ok_iff _).2 (C01_hazard_order' p prog tbl stalled hwf hp h)
+  (C01_ok_iff _).2 (C01_hazard_order_readable p prog tbl stalled hwf hp h)
+
+/-! ## Corollaries in "reads-from" form
+
+`Writes prog k r` / `Reads prog k r`: instruction `k` of the program writes / reads register `r`. Access times are the
+elements of `Ctx.accs`; every access happens at most once (`C01_access_once`), so "the" read / write cycle of an
+instruction is well defined whenever it exists. -/
+
+/-- instruction `k` writes register `r` -/
+def Writes (prog : List (Instr N)) (k : Nat) (r : N) : Prop := ∃ ins, prog[k]? = some ins ∧ ins.dst = r
+/-- instruction `k` reads register `r` -/
+def Reads (prog : List (Instr N)) (k : Nat) (r : N) : Prop := ∃ ins, prog[k]? = some ins ∧ r ∈ ins.srcs
+
+omit [LT N] [DecidableRel (α := N) (· < ·)] in
+theorem Writes.mem_reqsOf {prog : List (Instr N)} {k : Nat} {r : N} (h : Writes prog k r) :
+    (true, k) ∈ reqsOf prog r := by
+  obtain ⟨ins, h1, h2⟩ := h; exact Hazards.mem_reqsOf.2 ⟨ins, h1, h2⟩
+
+omit [LT N] [DecidableRel (α := N) (· < ·)] in
+theorem Reads.mem_reqsOf {prog : List (Instr N)} {k : Nat} {r : N} (h : Reads prog k r) :
+    (false, k) ∈ reqsOf prog r := by
+  obtain ⟨ins, h1, h2⟩ := h; exact Hazards.mem_reqsOf.2 ⟨ins, h1, h2⟩
+
+section corollaries
+variable (p : Proc N) (prog : List (Instr N)) (tbl : List (Util N)) (stalled : Bool)
+  (hwf : wfProc p = true) (hp : ProgOK prog) (h : Diagram p prog tbl stalled)
+include hwf hp h
+
+/-- every instruction performs its read access (and its write access) in at most one cycle -/
+theorem C01_access_once {k : Bool} {i t1 t2 : Nat} (h1 : t1 ∈ (ctx p prog tbl stalled).accs k i)
+    (h2 : t2 ∈ (ctx p prog tbl stalled).accs k i) : t1 = t2 :=
+  accs_unique hwf hp h h1 h2
+
+/-- an instruction's read access is not after its write access (same cycle in a unit holding both locks) -/
+theorem C01_read_before_own_write {i tr tw : Nat} (hr : tr ∈ (ctx p prog tbl stalled).accs false i)
+    (hw : tw ∈ (ctx p prog tbl stalled).accs true i) : tr ≤ tw :=
+  read_le_write hwf hp h hr hw
+
+/-- conflicting accesses of different instructions: the older instruction's access is strictly earlier -/
+theorem C01_conflict_lt {r : N} {i j : Nat} {ki kj : Bool} (hij : i < j) (hi : (ki, i) ∈ reqsOf prog r)
+    (hj : (kj, j) ∈ reqsOf prog r) (hconf : ki = true ∨ kj = true) {ti tj : Nat}
+    (hti : ti ∈ (ctx p prog tbl stalled).accs ki i) (htj : tj ∈ (ctx p prog tbl stalled).accs kj j) : ti < tj := by
+  obtain ⟨t, ht, hlt⟩ := (orderedAcc_iff _ _ _ _ _).1 (ordered_of_conflict hwf hp h hij hi hj hconf) tj htj
+  rw [accs_unique hwf hp h hti ht]; exact hlt
+
+/-- **writes to one register are performed in program order** -/
+theorem C01_write_order {r : N} {k1 k2 t1 t2 : Nat} (hw1 : Writes prog k1 r) (hw2 : Writes prog k2 r)
+    (ht1 : t1 ∈ (ctx p prog tbl stalled).accs true k1) (ht2 : t2 ∈ (ctx p prog tbl stalled).accs true k2) :
+    t1 < t2 ↔ k1 < k2 := by
+  rcases Nat.lt_trichotomy k1 k2 with hlt | heq | hgt
+  · have := C01_conflict_lt p prog tbl stalled hwf hp h hlt hw1.mem_reqsOf hw2.mem_reqsOf (Or.inl rfl) ht1 ht2
+    exact ⟨fun _ => hlt, fun _ => this⟩
+  · subst heq
+    have := accs_unique hwf hp h ht1 ht2
+    omega
+  · have := C01_conflict_lt p prog tbl stalled hwf hp h hgt hw2.mem_reqsOf hw1.mem_reqsOf (Or.inl rfl) ht2 ht1
+    omega
+
+/-- **a read sees exactly the writes of older instructions**: a write to `r` is performed before `j`'s read of `r` iff
+its instruction is older than `j` -/
+theorem C01_write_before_read_iff {r : N} {j k tj tk : Nat} (hr : Reads prog j r) (hw : Writes prog k r)
+    (htj : tj ∈ (ctx p prog tbl stalled).accs false j) (htk : tk ∈ (ctx p prog tbl stalled).accs true k) :
+    tk < tj ↔ k < j := by
+  rcases Nat.lt_trichotomy k j with hlt | heq | hgt
+  · have := C01_conflict_lt p prog tbl stalled hwf hp h hlt hw.mem_reqsOf hr.mem_reqsOf (Or.inl rfl) htk htj
+    exact ⟨fun _ => hlt, fun _ => this⟩
+  · subst heq
+    have := read_le_write hwf hp h htj htk
+    omega
+  · have := C01_conflict_lt p prog tbl stalled hwf hp h hgt hr.mem_reqsOf hw.mem_reqsOf (Or.inr rfl) htj htk
+    omega
+
+/-- **reads-from**: let `k` be the program-order last writer of `r` before `j`. Then `k`'s write is performed before
+`j`'s read of `r`, and no other write to `r` is performed between the two: `j` reads what `k` wrote. -/
+theorem C01_reads_from {r : N} {j k tj tk : Nat} (hr : Reads prog j r) (hw : Writes prog k r) (hkj : k < j)
+    (hlast : ∀ k', Writes prog k' r → k' < j → k' ≤ k)
+    (htj : tj ∈ (ctx p prog tbl stalled).accs false j) (htk : tk ∈ (ctx p prog tbl stalled).accs true k) :
+    tk < tj ∧ ∀ k' t', Writes prog k' r → t' ∈ (ctx p prog tbl stalled).accs true k' → t' < tj → t' ≤ tk := by
+  refine ⟨(C01_write_before_read_iff p prog tbl stalled hwf hp h hr hw htj htk).2 hkj, ?_⟩
+  intro k' t' hw' ht' hlt
+  have hk'j := (C01_write_before_read_iff p prog tbl stalled hwf hp h hr hw' htj ht').1 hlt
+  have hle := hlast k' hw' hk'j
+  rcases Nat.lt_or_eq_of_le hle with hlt' | heq
+  · exact Nat.le_of_lt ((C01_write_order p prog tbl stalled hwf hp h hw' hw ht' htk).2 hlt')
+  · subst heq; exact Nat.le_of_eq (accs_unique hwf hp h ht' htk)
+
+/-- **reads-from, no older writer**: if no instruction before `j` writes `r`, no write to `r` is performed before `j`'s
+read: `j` reads the initial content of `r`. -/
+theorem C01_reads_initial {r : N} {j tj : Nat} (hr : Reads prog j r) (hnone : ∀ k', Writes prog k' r → ¬ k' < j)
+    (htj : tj ∈ (ctx p prog tbl stalled).accs false j) :
+    ∀ k' t', Writes prog k' r → t' ∈ (ctx p prog tbl stalled).accs true k' → ¬ t' < tj := by
+  intro k' t' hw' ht' hlt
+  exact hnone k' hw' ((C01_write_before_read_iff p prog tbl stalled hwf hp h hr hw' htj ht').1 hlt)
+
+/-- **final writer**: the write of the program-order last writer of `r` is performed after every other write to `r`:
+the register file ends with the value of sequential execution. -/
+theorem C01_final_writer {r : N} {k k' t t' : Nat} (hw : Writes prog k r) (hlast : ∀ k', Writes prog k' r → k' ≤ k)
+    (hw' : Writes prog k' r) (hne : k' ≠ k) (ht : t ∈ (ctx p prog tbl stalled).accs true k)
+    (ht' : t' ∈ (ctx p prog tbl stalled).accs true k') : t' < t := by
+  have : k' < k := Nat.lt_of_le_of_ne (hlast k' hw') hne
+  exact (C01_write_order p prog tbl stalled hwf hp h hw' hw ht' ht).2 this
+
+/-- **Replay equals sequential execution, reads-from form** (partial form of `C01_replay_eq_sequential`, see the note
+below). For every read of `r` by `j` at cycle `tj` and every write of `r` by `k` at cycle `tk`:
+`tk < tj ↔ k < j`; and writes of `r` by `k1`, `k2` at `t1`, `t2`: `t1 < t2 ↔ k1 < k2`. Hence, replaying the diagram's
+reads and writes in cycle order (reads of a cycle before its writes), every performed read returns the value written by
+the program-order last older writer (or the initial value), and the last performed write to each register is that of
+its program-order last writer — whatever the operation. -/
+theorem C01_replay_eq_sequential_partial {r : N} :
+    (∀ j k tj tk, Reads prog j r → Writes prog k r → tj ∈ (ctx p prog tbl stalled).accs false j →
+      tk ∈ (ctx p prog tbl stalled).accs true k → (tk < tj ↔ k < j)) ∧
+    (∀ k1 k2 t1 t2, Writes prog k1 r → Writes prog k2 r → t1 ∈ (ctx p prog tbl stalled).accs true k1 →
+      t2 ∈ (ctx p prog tbl stalled).accs true k2 → (t1 < t2 ↔ k1 < k2)) :=
+  ⟨fun _ _ _ _ hr hw htj htk => C01_write_before_read_iff p prog tbl stalled hwf hp h hr hw htj htk,
+   fun _ _ _ _ hw1 hw2 ht1 ht2 => C01_write_order p prog tbl stalled hwf hp h hw1 hw2 ht1 ht2⟩
+
+end corollaries
+
+/- NOTE (what is missing for the full `C01_replay_eq_sequential`): the full statement — "for a `.done` diagram, replaying
+reads and writes in diagram order with an arbitrary operation gives every instruction the operand values, and the
+register file the final contents, of sequential execution" — needs in addition that in a *returned* diagram every
+instruction performs its read and its write access (existence; uniqueness is `C01_access_once`). Existence follows from
+"a finished run has moved every instruction along a maximal route into an output port" (C03, `Lemmas/Routes`) and
+`routeLocksOK`; it is not proved here. Everything order-related is: `C01_replay_eq_sequential_partial`. -/
+
+/-! ## Non-vacuity
+
+Processor over `Nat` names: capability `7` goes through input port `0` (width 1, read lock) and output port `1`
+(width 1, write lock) — separate read-locking and write-locking units; capability `8` is served by the in-out port `2`
+(width 2, both locks). Program (registers are numbers):
+
+    I0: R1 := f(R2, R3)   cap 7
+    I1: R4 := f(R1)       cap 8     RAW on R1 with I0
+    I2: R2 := f(R5)       cap 8     WAR on R2 with I0
+    I3: R4 := f(R6)       cap 7     WAW on R4 with I1
+    I4: R7 := f(R1, R7)   cap 8     reads its own destination; RAW on R1 with I0
+
+The run returns the 4-cycle diagram `table` below, in which all three kinds of hazard delay an instruction. -/
+namespace C01Example
+
+def rdU : UnitM Nat := ⟨0, 1, [7], true, false, []⟩
+def wrU : UnitM Nat := ⟨1, 1, [7], false, true, []⟩
+def bothU : UnitM Nat := ⟨2, 2, [8], true, true, []⟩
+def proc : Proc Nat := { inPorts := [rdU], outPorts := [⟨wrU, [0]⟩], inOut := [bothU], internal := [] }
+def prog : List (Instr Nat) :=
+  [⟨[2, 3], 1, 7⟩, ⟨[1], 4, 8⟩, ⟨[5], 2, 8⟩, ⟨[6], 4, 7⟩, ⟨[1, 7], 7, 8⟩]
+
+/-- the diagram: unit ↦ hosted instructions, cycle by cycle -/
+def table : List (Util Nat) :=
+  [ [(2, [⟨1, .D⟩, ⟨2, .D⟩]), (1, []), (0, [⟨0, .U⟩])],
+    [(2, [⟨1, .D⟩, ⟨2, .U⟩]), (1, [⟨0, .U⟩]), (0, [⟨3, .U⟩])],
+    [(2, [⟨1, .U⟩, ⟨4, .U⟩]), (1, [⟨3, .D⟩]), (0, [])],
+    [(2, []), (1, [⟨3, .U⟩]), (0, [])] ]
+
+example : wfProc proc = true := by decide
+example : progOK prog = true := by decide
+
+def isDoneWith (o : Outcome Nat) (t : List (Util Nat)) : Bool :=
+  match o with
+  | .done t' => decide (t' = t)
+  | _ => false
+
+theorem sim_done : isDoneWith (simulate proc prog) table = true := by decide
+
+theorem sim_eq : simulate proc prog = .done table := by
+  have h := sim_done
+  unfold isDoneWith at h
+  split at h
+  · next t' e => rw [e]; congr 1; exact of_decide_eq_true h
+  · cases h
+
+/-- the hypotheses of `C01_hazard_order` are satisfiable, and the theorem applies to the diagram -/
+example : Diagram proc prog table false ∧ (Spec.C01 (ctx proc prog table false)).ok = true :=
+  ⟨Or.inl ⟨rfl, sim_eq⟩,
+   C01_hazard_order proc prog table false (by decide) ((progOK_iff prog).1 (by decide)) (Or.inl ⟨rfl, sim_eq⟩)⟩
+
+-- the checker agrees by evaluation
+example : (Spec.C01 (ctx proc prog table false)).ok = true := by decide
+-- access plan of R1: written by I0, then read by I1 and I4 together
+example : reqsOf prog 1 = [(true, 0), (false, 1), (false, 4)] := by decide
+example : (buildPlan prog).get 1 = [⟨true, [0]⟩, ⟨false, [1, 4]⟩] := by decide
+-- access plan of R7: I4's own read, then its write
+example : reqsOf prog 7 = [(false, 4), (true, 4)] := by decide
+-- RAW: I0 writes R1 in cycle 1, I1 and I4 read it in cycle 2
+example : (ctx proc prog table false).accs true 0 = [1] ∧ (ctx proc prog table false).accs false 1 = [2] ∧
+    (ctx proc prog table false).accs false 4 = [2] := by decide
+-- WAR: I0 reads R2 in cycle 0, I2 writes it in cycle 1
+example : (ctx proc prog table false).accs false 0 = [0] ∧ (ctx proc prog table false).accs true 2 = [1] := by decide
+-- WAW: I1 writes R4 in cycle 2, I3 in cycle 3
+example : (ctx proc prog table false).accs true 1 = [2] ∧ (ctx proc prog table false).accs true 3 = [3] := by decide
+-- the self-dependent I4 reads and writes R7 in the same cycle
+example : (ctx proc prog table false).accs false 4 = [2] ∧ (ctx proc prog table false).accs true 4 = [2] := by decide
+-- a diagram with the write of I0 and the read of I1 in the same cycle is rejected by the checker
+example : (Spec.C01 (ctx proc prog
+    [ [(2, [⟨1, .D⟩]), (0, [⟨0, .U⟩])], [(2, [⟨1, .U⟩]), (1, [⟨0, .U⟩])] ] false)).ok = false := by decide
+
+end C01Example
 
 end ProcSim
